@@ -252,7 +252,7 @@ theorem lexicalGet_succ (fuel : Nat) (chain : Chain) (path : Str) (stopId : Nat)
 
 /-! ## 5. the frame property of lexical lookup, generic in an object projection `f`
 
-`f = id` gives the shallow frame property (equal visible prefixes), `f = pruneObj n` the deep one
+`f = id` gives the shallow frame property (equal visible prefixes), `f = pruneBeforeObj n` the deep one
 (equal after removing, at every depth, everything from the first object with id ≥ n onwards). -/
 
 section Frame
@@ -416,42 +416,42 @@ theorem lexicalGet_frame_gen (hf : FrameMap n f) :
 
 end Frame
 
-/-! ## 6. instances: shallow frame (`f = id`) and deep frame (`f = pruneObj n`) -/
+/-! ## 6. instances: shallow frame (`f = id`) and deep frame (`f = pruneBeforeObj n`) -/
 
 mutual
 /-- remove, at every depth below `o`, everything from the first object with id ≥ `n` onwards -/
-def pruneObj (n : Nat) : Obj → Obj
+def pruneBeforeObj (n : Nat) : Obj → Obj
   | .defn m ws => .defn m ws
-  | .scope m k => .scope m (pruneList n k)
+  | .scope m k => .scope m (pruneBeforeList n k)
 /-- the visible prefix of a level, pruned recursively: all a lookup with `stopId = n` can ever see -/
-def pruneList (n : Nat) : List Obj → List Obj
+def pruneBeforeList (n : Nat) : List Obj → List Obj
   | [] => []
-  | o :: r => if vis n o then pruneObj n o :: pruneList n r else []
+  | o :: r => if vis n o then pruneBeforeObj n o :: pruneBeforeList n r else []
 end
 
 theorem pruneList_eq (n : Nat) (l : List Obj) :
-    pruneList n l = (visiblePrefix n l).map (pruneObj n) := by
+    pruneBeforeList n l = (visiblePrefix n l).map (pruneBeforeObj n) := by
   induction l with
-  | nil => simp [pruneList, visiblePrefix]
+  | nil => simp [pruneBeforeList, visiblePrefix]
   | cons o r ih =>
     unfold visiblePrefix at ih ⊢
     by_cases h : vis n o = true
-    · simp [pruneList, h, ih]
-    · simp [pruneList, h]
+    · simp [pruneBeforeList, h, ih]
+    · simp [pruneBeforeList, h]
 
-theorem pruneObj_meta (n : Nat) (o : Obj) : (pruneObj n o).meta = o.meta := by
-  cases o <;> simp [pruneObj, Obj.meta]
+theorem pruneObj_meta (n : Nat) (o : Obj) : (pruneBeforeObj n o).meta = o.meta := by
+  cases o <;> simp [pruneBeforeObj, Obj.meta]
 
-theorem pruneObj_isDefn (n : Nat) (o : Obj) : (pruneObj n o).isDefn = o.isDefn := by
-  cases o <;> simp [pruneObj, Obj.isDefn]
+theorem pruneObj_isDefn (n : Nat) (o : Obj) : (pruneBeforeObj n o).isDefn = o.isDefn := by
+  cases o <;> simp [pruneBeforeObj, Obj.isDefn]
 
-theorem pruneObj_children (n : Nat) (o : Obj) : (pruneObj n o).children = pruneList n o.children := by
-  cases o <;> simp [pruneObj, Obj.children, pruneList]
+theorem pruneObj_children (n : Nat) (o : Obj) : (pruneBeforeObj n o).children = pruneBeforeList n o.children := by
+  cases o <;> simp [pruneBeforeObj, Obj.children, pruneBeforeList]
 
 theorem frameMap_id (n : Nat) : FrameMap n id :=
   ⟨fun _ => rfl, fun _ => rfl, fun _ _ h => by cases h; rfl⟩
 
-theorem frameMap_prune (n : Nat) : FrameMap n (pruneObj n) := by
+theorem frameMap_prune (n : Nat) : FrameMap n (pruneBeforeObj n) := by
   refine ⟨pruneObj_meta n, pruneObj_isDefn n, ?_⟩
   intro o1 o2 h
   have := congrArg Obj.children h
@@ -461,7 +461,7 @@ theorem frameMap_prune (n : Nat) : FrameMap n (pruneObj n) := by
 theorem projLevel_id (n : Nat) : projLevel n id = visiblePrefix n := by
   funext l; simp [projLevel]
 
-theorem projLevel_prune (n : Nat) : projLevel n (pruneObj n) = pruneList n := by
+theorem projLevel_prune (n : Nat) : projLevel n (pruneBeforeObj n) = pruneBeforeList n := by
   funext l; simp [projLevel, pruneList_eq]
 
 /-- **Shallow frame property.**  Two chains of equal length whose levels have the same visible prefix
@@ -487,9 +487,9 @@ theorem lexicalGet_frame_obj (fuel : Nat) (c1 c2 : Chain) (path : Str) (stopId :
 /-- **Deep frame property.**  Chains that agree after pruning (at every depth) everything from the
     first object with id ≥ `stopId` onwards give the same lookup result up to pruning. -/
 theorem lexicalGet_frame_deep (fuel : Nat) (c1 c2 : Chain) (path : Str) (stopId : Nat) (up : Bool)
-    (h : c1.map (pruneList stopId) = c2.map (pruneList stopId)) :
-    (lexicalGet fuel c1 path stopId up).map (fun r => (pruneObj stopId r.1, r.2.map (pruneList stopId)))
-      = (lexicalGet fuel c2 path stopId up).map (fun r => (pruneObj stopId r.1, r.2.map (pruneList stopId))) := by
+    (h : c1.map (pruneBeforeList stopId) = c2.map (pruneBeforeList stopId)) :
+    (lexicalGet fuel c1 path stopId up).map (fun r => (pruneBeforeObj stopId r.1, r.2.map (pruneBeforeList stopId)))
+      = (lexicalGet fuel c2 path stopId up).map (fun r => (pruneBeforeObj stopId r.1, r.2.map (pruneBeforeList stopId))) := by
   have := lexicalGet_frame_gen (frameMap_prune stopId) fuel c1 c2 path up
     (by unfold projChain; rw [projLevel_prune]; exact h)
   unfold projRes projChain at this
@@ -551,26 +551,26 @@ theorem vis_mono {a b : Nat} (h : a ≤ b) (o : Obj) (hv : vis a o = true) : vis
   | some i => simp [hid] at hv ⊢; omega
 
 mutual
-theorem pruneObj_pruneObj {a b : Nat} (h : a ≤ b) : ∀ o : Obj, pruneObj a (pruneObj b o) = pruneObj a o
-  | .defn m ws => by simp [pruneObj]
-  | .scope m k => by simp [pruneObj, pruneList_pruneList h k]
-theorem pruneList_pruneList {a b : Nat} (h : a ≤ b) : ∀ l : List Obj, pruneList a (pruneList b l) = pruneList a l
-  | [] => by simp [pruneList]
+theorem pruneObj_pruneObj {a b : Nat} (h : a ≤ b) : ∀ o : Obj, pruneBeforeObj a (pruneBeforeObj b o) = pruneBeforeObj a o
+  | .defn m ws => by simp [pruneBeforeObj]
+  | .scope m k => by simp [pruneBeforeObj, pruneList_pruneList h k]
+theorem pruneList_pruneList {a b : Nat} (h : a ≤ b) : ∀ l : List Obj, pruneBeforeList a (pruneBeforeList b l) = pruneBeforeList a l
+  | [] => by simp [pruneBeforeList]
   | o :: r => by
     by_cases hb : vis b o = true
-    · have hv : vis a (pruneObj b o) = vis a o := by
+    · have hv : vis a (pruneBeforeObj b o) = vis a o := by
         unfold vis; rw [pruneObj_meta]
       by_cases ha : vis a o = true
-      · simp [pruneList, hb, ha, hv, pruneObj_pruneObj h o, pruneList_pruneList h r]
-      · simp [pruneList, hb, ha, hv]
+      · simp [pruneBeforeList, hb, ha, hv, pruneObj_pruneObj h o, pruneList_pruneList h r]
+      · simp [pruneBeforeList, hb, ha, hv]
     · have ha : ¬ vis a o = true := fun ha => hb (vis_mono h o ha)
-      simp [pruneList, hb, ha]
+      simp [pruneBeforeList, hb, ha]
 end
 
 theorem pruneChain_mono {a b : Nat} (h : a ≤ b) (c1 c2 : Chain)
-    (hc : c1.map (pruneList b) = c2.map (pruneList b)) :
-    c1.map (pruneList a) = c2.map (pruneList a) := by
-  have := congrArg (List.map (pruneList a)) hc
+    (hc : c1.map (pruneBeforeList b) = c2.map (pruneBeforeList b)) :
+    c1.map (pruneBeforeList a) = c2.map (pruneBeforeList a) := by
+  have := congrArg (List.map (pruneBeforeList a)) hc
   simpa [List.map_map, Function.comp_def, pruneList_pruneList h] using this
 
 /-! ## 9. later definitions never influence resolution -/
@@ -584,7 +584,7 @@ theorem map_len_eq {α β : Type} {g : α → β} {l1 l2 : List α} (h : l1.map 
     every depth — everything from the first object with id ≥ `id` onwards, then the definition with
     primary id `id` resolves identically in both (same words or same error), for every environment. -/
 theorem resolveWords_frame (env : Env) : ∀ (fuel : Nat) (c1 c2 : Chain) (id : Nat) (ws : List Word)
-    (diff : Bool), c1.map (pruneList id) = c2.map (pruneList id) →
+    (diff : Bool), c1.map (pruneBeforeList id) = c2.map (pruneBeforeList id) →
     resolveWords env fuel c1 id ws diff = resolveWords env fuel c2 id ws diff := by
   intro fuel
   induction fuel with
@@ -617,7 +617,7 @@ theorem resolveWords_frame (env : Env) : ∀ (fuel : Nat) (c1 c2 : Chain) (id : 
             | defn m ws1 =>
               cases o2 with
               | defn m2 ws2 =>
-                simp only [pruneObj, Obj.defn.injEq] at ho
+                simp only [pruneBeforeObj, Obj.defn.injEq] at ho
                 obtain ⟨rfl, rfl⟩ := ho
                 simp only [foundOf]
                 cases hid : m.id with
@@ -626,10 +626,10 @@ theorem resolveWords_frame (env : Env) : ∀ (fuel : Nat) (c1 c2 : Chain) (id : 
                   have hlt : sid < id := lexicalGet_id_lt _ _ _ _ _ _ _ _ h1 (by simpa [Obj.meta] using hid)
                   simp only []
                   rw [ih ch1 ch2 sid ws1 false (pruneChain_mono (Nat.le_of_lt hlt) _ _ hch)]
-              | scope m2 k2 => simp [pruneObj] at ho
+              | scope m2 k2 => simp [pruneBeforeObj] at ho
             | scope m k =>
               cases o2 with
-              | defn m2 ws2 => simp [pruneObj] at ho
+              | defn m2 ws2 => simp [pruneBeforeObj] at ho
               | scope m2 k2 => rfl
       unfold resolveVar
       simp only [hfound]
@@ -661,7 +661,7 @@ theorem visiblePrefix_append_later (n : Nat) (l extra : List Obj)
     · simp [h]
 
 theorem pruneList_append_later (n : Nat) (l extra : List Obj)
-    (hx : ∀ o ∈ extra, vis n o = false) : pruneList n (l ++ extra) = pruneList n l := by
+    (hx : ∀ o ∈ extra, vis n o = false) : pruneBeforeList n (l ++ extra) = pruneBeforeList n l := by
   rw [pruneList_eq, pruneList_eq, visiblePrefix_append_later n l extra hx]
 
 theorem zipWith_append_later {n : Nat} {P : List Obj → List Obj}
